@@ -516,6 +516,7 @@ theorem inv_step (cfg : Cfg) (s : St) (e : Ev) (h : Inv cfg s) (en : enabled s e
   | jobGone f => exact inv_jobGone cfg s f h en
   | drop p => exact inv_drop cfg s p h
   | restart p => exact inv_restart cfg s p h en
+  | recreate p => exact h
 
 theorem reachable_inv (cfg : Cfg) (s : St) (r : Reachable cfg s) : Inv cfg s := by
   induction r with
